@@ -81,6 +81,7 @@ def run(ctx, rep):
     rep.analysed(rc)
     inv = list(rc.calls('hash_invalid_set'))
     past_hash_cleared_rule(P, rep, 'R-C07-3d')
+    zero_marker_kept_rule(P, rep, 'R-C07-3z')
     from .C11 import need_write_rule
     need_write_rule(P, rep, 'R-C07-8')
     # the pre-sync save must keep the DELETED blocks of a disk without files: they are the memory of a pending parity update
@@ -286,3 +287,30 @@ def past_hash_cleared_rule(P, rep, rid):
         rep.check(ok, rid, 'blocks restored as %s have their hash invalidated under clear_past_hash' % past[k], c.loc(),
                   'invalidation present in the same loop' if ok else 'no hash_invalid_set(block->hash) guarded only by clear_past_hash in the loop that restores %s blocks: the hash of data that may no longer be in the parity is trusted by the next sync' % past[k],
                   function='state_read_content', construct='%s hash cleared on load' % past[k])
+
+
+def zero_marker_kept_rule(P, rep, rid):
+    """a block of a new file placed on a free parity position is recorded as CHG with the ZERO hash: "the parity holds zeros here (or,
+    after an aborted run, already the new data)" -- the two cases repair() tries, which keeps the OTHER blocks of the stripe
+    recoverable while the sync is pending.  The loader's clearing of past hashes for a new sync must spare that marker: turned into
+    INVALID it is saved as such when the second run is stopped, and the files synced before lose their protection in every stripe the
+    run did not reach (finding F25)."""
+    from ..guards import guards_of
+    rc = P.fn('state_read_content')
+    rep.rule(rid, 'state_read_content: the invalidation of past hashes under clear_past_hash does not apply to the ZERO marker (guard includes !hash_is_zero)', 1)
+    inv = [x for x in rc.calls('hash_invalid_set') if rc.expr(x.ops[0]) == '&block->hash[0]' and dict(guards_of(rc, x)).get('state->clear_past_hash') is True]
+    # only CHG blocks can carry the marker: the site in the loop that restores file blocks, not tied to an option
+    from .C06 import blk_value
+    chg = blk_value(P)['CHG']
+    chg_loops = {rc.loop_of(c.block) for c in rc.calls('block_state_set') if rc.loop_of(c.block) is not None}
+    file_loops = {rc.loop_of(c.block) for c in rc.calls('fs_file2block_get') if rc.loop_of(c.block) is not None}
+    del_loops = {rc.loop_of(c.block) for c in rc.calls('block_state_set') if rc.const_of(c.ops[1]) is not None and rc.const_of(c.ops[1]) not in set(blk_value(P).values())}
+    inv = [x for x in inv if rc.loop_of(x.block) in file_loops and rc.loop_of(x.block) not in del_loops and not any(a.startswith('state->opt.') for a, p in guards_of(rc, x))]
+    if not inv:
+        raise AnalysisBroken('state_read_content: invalidation under clear_past_hash not found')
+    for x in inv:
+        g = guards_of(rc, x, expand=True)
+        spared = any('hash_is_zero' in a and p is False for a, p in g)
+        rep.check(spared, rid, 'past-hash clearing at line %s spares the ZERO marker' % x.line, x.loc(),
+                  'guarded by !hash_is_zero' if spared else 'every CHG / DELETED hash is invalidated, the ZERO marker of never-synced positions included: after sync is stopped twice (Ctrl+C, restart, Ctrl+C) with only additions pending, a file synced before cannot be recovered from one lost disk in the stripes the second run did not reach',
+                  function='state_read_content', construct='ZERO marker cleared on load')
